@@ -11,7 +11,7 @@ from .common import Discard, run_alg, well_formed, dataset_tags, sweep
 
 ID = "C03"
 ENVS = ["absent", "present", "broken", "absent", "present"]
-RUNS = {"quick": 2400, "thorough": 40000}
+RUNS = {"quick": 16000, "thorough": 200000}
 RULE = ("case = (dataset with insertion orders, valid scheme, 3-6 algorithm calls each with its own RNG schedule and "
         "return_at_most_one flag) executed in a cell (hash seed, cplex environment); distinct = distinct case digest; "
         "non-trivial = at least one call returned a consensus over a universe of >= 2 elements")
